@@ -100,7 +100,7 @@ PROPS["C12"] = dict(
         "lean/Zrnt/Gossip/Model.lean: hand model of eth2/gossipval in the code's order of checks, tied by the c12 correspondence (verdict, Seen* keys, Mark* calls, returned indices) on every run; CheckSlotSpan/EpochStartSlot/SlotToEpoch are regenerated from the Go source (go2lean)",
         "go/internal/gossip: scripted mock backends (zrnt ships none), message builders, and the signature oracle (own compute_domain/compute_signing_root over SHA-256, real blsu.Verify on the harness's key table)",
         "BLS12-381 (bls12-381-util/kilic) is not modelled: ideal signature relation = oracle answers; SHA-256 in Lean (Zrnt.Sha256) for the selection-proof hash, cross-checked against Go by mode c19",
-        "backend contract: Towards(root, slot) yields a context whose current epoch is epoch(slot); the chain view holds validated blocks only; SLOTS_PER_EPOCH != 0, SYNC_COMMITTEE_SIZE >= 4",
+        "backend contract: Towards(root, slot) yields a context whose current epoch is epoch(slot); the chain view holds validated blocks only; SLOTS_PER_EPOCH != 0, SYNC_COMMITTEE_SIZE >= 4 (below 4 the spec formula index // (SIZE // 4) and the Go code both divide by zero; SIZE need not be a multiple of 4: presets with 13 and 30 are run)",
     ],
     manifest=dict(
         level_text="Lean theorems about a code-shaped model of every gossipval validator against an independent transcription of the p2p specification's tagged condition lists (ACCEPT iff all conditions; violated => never ACCEPT; timing-only failures => IGNORE; marks only on ACCEPT), plus arithmetic theorems for CheckSlotSpan (regenerated), is_aggregator, is_sync_committee_aggregator, compute_subnet_for_attestation, compute_subnets_for_sync_committee over all uint64 inputs; the model is tied to the Go code by a differential run with scripted backends and real BLS messages",
